@@ -732,6 +732,25 @@ def series(r, name, order, extra=4):
     raise Unsupported("series precision not reached")
 
 
+def coeffs_in(p, name):
+    """Coefficients of Poly p viewed as a polynomial in symbol `name`: {exp: Poly}."""
+    aid = _intern(("s", name))
+    out = {}
+    for m, c in p.t.items():
+        e = 0
+        rest = []
+        for a, k in m:
+            if a == aid:
+                e = k
+            else:
+                if _atom_depends(a, aid):
+                    raise Unsupported(f"{name} occurs inside {fmt_atom(a)}")
+                rest.append((a, k))
+        q = out.setdefault(e, Poly())
+        out[e] = q + Poly({tuple(rest): c})
+    return {e: q for e, q in out.items() if not q.is_zero()}
+
+
 # --------------------------------------------------------------------------
 def fmt_atom(a):
     d = _ATOM_LIST[a]
